@@ -83,6 +83,9 @@ func parseRFC3339TimeUTC(s string) (time.Time, bool) {
 		if term == '+' {
 			tzOffsetSeconds = -tzOffsetSeconds
 		}
+	} else if scanner.peek() != scannerEOF {
+		// the zone designator 'Z' must be the last character, as it is for time.Parse
+		return time.Time{}, false
 	}
 
 	t := time.Date(year, time.Month(month), day, hour, minute, second, nanos, time.UTC)
